@@ -86,69 +86,122 @@ func loadCorpus(verif string) []corpusEntry {
 	return out
 }
 
-func runVariant(self, repo, verif string, e corpusEntry, prop string) corpusResult {
-	res := corpusResult{Entry: e.Name, Kind: e.Kind, Prop: prop}
+func runVariant(self, repo, verif string, e corpusEntry, props []string) []corpusResult {
+	all := func(outcome, detail string) []corpusResult {
+		var rs []corpusResult
+		for _, p := range props {
+			rs = append(rs, corpusResult{Entry: e.Name, Kind: e.Kind, Prop: p, Outcome: outcome, Detail: detail})
+		}
+		return rs
+	}
 	tmpRoot := os.Getenv("TMPDIR")
 	if tmpRoot == "" || strings.HasPrefix(tmpRoot, "/verif") || strings.HasPrefix(tmpRoot, "/repo") {
 		tmpRoot = "/var/tmp"
 	}
 	dir, err := os.MkdirTemp(tmpRoot, "fsself.")
 	if err != nil {
-		res.Outcome, res.Detail = "inapplicable", err.Error()
-		return res
+		return all("inapplicable", err.Error())
 	}
 	defer os.RemoveAll(dir)
 	if out, err := exec.Command("rsync", "-a", "--exclude", ".git", repo+"/", dir+"/").CombinedOutput(); err != nil {
-		res.Outcome, res.Detail = "inapplicable", "copy failed: "+string(out)
-		return res
+		return all("inapplicable", "copy failed: "+string(out))
 	}
 	p := exec.Command("patch", "-p1", "-s", "--no-backup-if-mismatch", "-i", filepath.Join(e.Dir, "patch.diff"))
 	p.Dir = dir
 	if out, err := p.CombinedOutput(); err != nil {
-		res.Outcome, res.Detail = "inapplicable", "patch does not apply: "+firstLine(string(out))
-		return res
+		return all("inapplicable", "patch does not apply: "+firstLine(string(out)))
 	}
-	b := exec.Command("go", "build", "./...")
-	b.Dir = dir
-	b.Env = append(os.Environ(), "GOFLAGS=-mod=mod", "GOPROXY=off", "GOSUMDB=off", "GOTOOLCHAIN=local")
-	if out, err := b.CombinedOutput(); err != nil {
-		res.Outcome, res.Detail = "inapplicable", "does not build: "+firstLine(string(out))
-		return res
-	}
-	c := exec.Command(self, "check", "-prop", prop, "-repo", dir, "-verif", verif, "-no-evidence", "-no-replay")
+	// one process analyses the variant for all requested properties (the tree is loaded and type-checked once; a
+	// variant that does not compile is reported as such by the loader — no separate build, which would only fill
+	// the Go build cache with one copy of the library per variant)
+	c := exec.Command(self, "multicheck", "-props", strings.Join(props, ","), "-repo", dir, "-verif", verif)
 	out, _ := c.CombinedOutput()
-	fired := false
-	var hit string
+	if strings.Contains(string(out), "LOAD-FAILED: ") {
+		i := strings.Index(string(out), "LOAD-FAILED: ")
+		return all("inapplicable", "does not build: "+firstLine(string(out)[i+13:]))
+	}
+	sections := map[string][]string{}
+	cur := ""
 	for _, l := range strings.Split(string(out), "\n") {
-		if strings.HasPrefix(l, "  rule ") {
-			if e.Rule == "" || strings.Contains(l, "."+e.Rule) || strings.Contains(l, e.Rule) {
-				fired = true
-				if hit == "" {
+		if strings.HasPrefix(l, "=== ") {
+			cur = strings.TrimPrefix(l, "=== ")
+			continue
+		}
+		sections[cur] = append(sections[cur], l)
+	}
+	var rs []corpusResult
+	for _, prop := range props {
+		res := corpusResult{Entry: e.Name, Kind: e.Kind, Prop: prop}
+		lines, ran := sections[prop]
+		if !ran {
+			// the analysis process died before reaching this property: fail closed
+			lines = []string{"VIOLATION property=" + prop + " (analysis did not complete)", "  rule " + prop + ".checker: " + firstLine(string(out))}
+		}
+		fired := false
+		var hit string
+		knownSeen := 0
+		for _, l := range lines {
+			if strings.HasPrefix(l, "KNOWN-FINDING: property="+prop+" ") {
+				knownSeen++
+			}
+			if strings.HasPrefix(l, "  rule ") {
+				if e.Rule == "" || strings.Contains(l, "."+e.Rule) || strings.Contains(l, e.Rule) {
+					fired = true
+					if hit == "" {
+						hit = strings.TrimSpace(l)
+					}
+				} else if hit == "" && e.Kind == "must-stay-silent" {
+					fired = true
 					hit = strings.TrimSpace(l)
 				}
-			} else if hit == "" && e.Kind == "must-stay-silent" {
-				fired = true
-				hit = strings.TrimSpace(l)
+			}
+			if strings.HasPrefix(l, "VIOLATION") {
+				fired = true // the interface's criterion; rule_contains only selects which report line is quoted
 			}
 		}
-		if strings.HasPrefix(l, "VIOLATION") && (e.Rule == "" || e.Kind == "must-stay-silent") {
-			fired = true
+		if len(hit) > 220 {
+			hit = hit[:220]
 		}
+		switch {
+		case e.Kind == "must-fire" && fired:
+			res.Outcome, res.Detail = "fired", hit
+		case e.Kind == "must-fire":
+			res.Outcome = "MISSED"
+		case fired:
+			res.Outcome, res.Detail = "FALSE-ALARM", hit
+		case knownSeen < expectedKnown(verif, prop):
+			// a behaviour-preserving variant still has the recorded defects: a check that stops reporting them has lost
+			// sight of the construct (a miss on refactored code)
+			res.Outcome, res.Detail = "LOST-FINDING", fmt.Sprintf("%d of %d recorded findings still reported", knownSeen, expectedKnown(verif, prop))
+		default:
+			res.Outcome = "silent"
+		}
+		rs = append(rs, res)
 	}
-	if len(hit) > 220 {
-		hit = hit[:220]
-	}
-	switch {
-	case e.Kind == "must-fire" && fired:
-		res.Outcome, res.Detail = "fired", hit
-	case e.Kind == "must-fire":
-		res.Outcome = "MISSED"
-	case fired:
-		res.Outcome, res.Detail = "FALSE-ALARM", hit
-	default:
-		res.Outcome = "silent"
-	}
-	return res
+	return rs
+}
+
+var expectedKnownCache = map[string]int{}
+var expectedKnownOnce sync.Once
+
+// expectedKnown: number of `known` (unrepaired) findings recorded for the property.
+func expectedKnown(verif, prop string) int {
+	expectedKnownOnce.Do(func() {
+		b, err := os.ReadFile(filepath.Join(verif, "known_findings.json"))
+		if err != nil {
+			return
+		}
+		var fs []struct{ Property, Status string }
+		if json.Unmarshal(b, &fs) != nil {
+			return
+		}
+		for _, f := range fs {
+			if f.Status == "known" {
+				expectedKnownCache[f.Property]++
+			}
+		}
+	})
+	return expectedKnownCache[prop]
 }
 
 func firstLine(s string) string {
@@ -165,21 +218,25 @@ func firstLine(s string) string {
 func runCorpus(repo, verif, prop string, par int) []corpusResult {
 	self, _ := os.Executable()
 	type job struct {
-		e corpusEntry
-		p string
+		e  corpusEntry
+		ps []string
 	}
 	var jobs []job
 	for _, e := range loadCorpus(verif) {
 		if (corpusKind != "" && e.Kind != corpusKind) || (corpusOnly != "" && !strings.Contains(e.Name, corpusOnly)) {
 			continue
 		}
+		var ps []string
 		for _, p := range e.Props {
 			if prop == "" || p == prop {
-				jobs = append(jobs, job{e, p})
+				ps = append(ps, p)
 			}
 		}
+		if len(ps) > 0 {
+			jobs = append(jobs, job{e, ps})
+		}
 	}
-	results := make([]corpusResult, len(jobs))
+	results := make([][]corpusResult, len(jobs))
 	var wg sync.WaitGroup
 	sem := make(chan struct{}, par)
 	for i, j := range jobs {
@@ -188,11 +245,15 @@ func runCorpus(repo, verif, prop string, par int) []corpusResult {
 			defer wg.Done()
 			sem <- struct{}{}
 			defer func() { <-sem }()
-			results[i] = runVariant(self, repo, verif, j.e, j.p)
+			results[i] = runVariant(self, repo, verif, j.e, j.ps)
 		}(i, j)
 	}
 	wg.Wait()
-	return results
+	var flat []corpusResult
+	for _, r := range results {
+		flat = append(flat, r...)
+	}
+	return flat
 }
 
 var corpusKind, corpusOnly string
@@ -219,10 +280,10 @@ func cmdSelftest(args []string) int {
 	rs := runCorpus(*repo, *verif, *prop, *par)
 	bad := 0
 	for _, r := range rs {
-		if r.Outcome == "MISSED" || r.Outcome == "FALSE-ALARM" || r.Outcome == "inapplicable" {
+		if r.Outcome == "MISSED" || r.Outcome == "FALSE-ALARM" || r.Outcome == "LOST-FINDING" || r.Outcome == "inapplicable" {
 			fmt.Printf("%-12s %-28s %s %s\n", r.Outcome, r.Entry, r.Prop, r.Detail)
 		}
-		if r.Outcome == "MISSED" || r.Outcome == "FALSE-ALARM" {
+		if r.Outcome == "MISSED" || r.Outcome == "FALSE-ALARM" || r.Outcome == "LOST-FINDING" {
 			bad++
 		}
 	}
